@@ -7,7 +7,7 @@
 //   simplify <tol> <+|-> <tag> <data..>   -> <+|-> <tag> <data..>   (RecursiveSimplifier)
 //   xform <tag> <data..> | <r00..r22 tx ty tz>  -> <tag> <data..>   (SurfaceTransformer)
 //   softeq <rel> <abs> <surfA> | <surfB>        -> <soft 0|1> <exact 0|1>   (SoftSurfaceEqual)
-//   build2 <tol> <xf1> <region1> / <xf2> <region2> -> ok nodes.. | nodes.. | surfs..  (ONE unit)
+//   build2 <tol> <xf1> <region1> / <xf2> <region2> [/ ...] -> ok nodes.. | nodes.. | … | surfs..  (ONE unit)
 //   build <tol> <n | t tx ty tz | x r00..r22 tx ty tz> <region> -> ok nodes k ; <s> <id> <surf> ... | surfs n ; ... | L .. G .. M ..
 //   e2e <tol> <world hw> <f0|f1> <object> | x y z ...  -> ok <one char per probe: m b F x f>
 //        (f1: two filler material boxes at ±0.85 world so that the BIH gets inner nodes)
@@ -481,22 +481,20 @@ static string show_nodes(orangeinp::detail::CsgUnit const& unit,
     return out;
 }
 
-static string do_build2(double tol, VariantTransform const& vt1, RegionSpec const& s1,
-                        VariantTransform const& vt2, RegionSpec const& s2)
+static string do_build2(double tol, std::vector<VariantTransform> const& vts,
+                        std::vector<RegionSpec> const& specs)
 {
     using namespace orangeinp;
     oid::CsgUnit unit;
     oid::CsgUnitBuilder ub{&unit, Tolerance<>::from_relative(tol), BBox::from_infinite()};
     string out = "ok";
-    VariantTransform const* vts[] = {&vt1, &vt2};
-    RegionSpec const* specs[] = {&s1, &s2};
-    for (int k = 0; k < 2; ++k)
+    for (std::size_t k = 0; k < specs.size(); ++k)
     {
         oid::IntersectSurfaceState css;
-        css.transform = vts[k];
-        css.object_name = k == 0 ? "a" : "b";
+        css.transform = &vts[k];
+        css.object_name = "o" + std::to_string(k);
         css.make_face_name = {};
-        auto region = make_region(*specs[k]);
+        auto region = make_region(specs[k]);
         IntersectSurfaceBuilder insert_surface{&ub, &css};
         region->build(insert_surface);
         out += " " + show_nodes(unit, css.nodes) + " |";
@@ -952,21 +950,32 @@ static string handle(Words const& w)
         double tol;
         if (!parse_tol(p, &tol))
             return "bad-op";
-        std::size_t slash = p.i;
-        while (slash < w.size() && w[slash] != "/")
-            ++slash;
-        if (slash >= w.size())
+        // two or more `<xf> <region>` groups separated by "/"
+        std::vector<VariantTransform> vts;
+        std::vector<RegionSpec> specs;
+        std::size_t start = p.i;
+        for (;;)
+        {
+            std::size_t slash = start;
+            while (slash < w.size() && w[slash] != "/")
+                ++slash;
+            Words wk(w.begin() + start, w.begin() + slash);
+            Parser pk{wk, 0};
+            VariantTransform vt = NoTransformation{};
+            RegionSpec sp;
+            if (!parse_xf(pk, &vt) || !parse_region(pk, &sp) || !pk.done())
+                return "bad-op";
+            if (!sp.oracle_ok)
+                return "oracle-mismatch";
+            vts.push_back(vt);
+            specs.push_back(sp);
+            if (slash >= w.size())
+                break;
+            start = slash + 1;
+        }
+        if (specs.size() < 2 || specs.size() > 24)
             return "bad-op";
-        Words w1(w.begin() + p.i, w.begin() + slash), w2(w.begin() + slash + 1, w.end());
-        Parser p1{w1, 0}, p2{w2, 0};
-        VariantTransform vt1 = NoTransformation{}, vt2 = NoTransformation{};
-        RegionSpec s1, s2;
-        if (!parse_xf(p1, &vt1) || !parse_region(p1, &s1) || !p1.done() || !parse_xf(p2, &vt2)
-            || !parse_region(p2, &s2) || !p2.done())
-            return "bad-op";
-        if (!s1.oracle_ok || !s2.oracle_ok)
-            return "oracle-mismatch";
-        return forked([&] { return do_build2(tol, vt1, s1, vt2, s2); });
+        return forked([&] { return do_build2(tol, vts, specs); });
     }
     if (op == "simplify")
     {
